@@ -1,6 +1,8 @@
 """C02: a build that succeeded leaves nothing to do."""
-import enginecheck as ec
+import enginecheck as ec, histmodel
 from props import engcommon
 LEVEL = 'proof'; TRUSTED = engcommon.TRUSTED_ENGINE; ASSUMPTIONS = engcommon.ASSUMPTIONS_ENGINE
 def run(ctx):
     engcommon.run_engine_property(ctx, 'C02', scan_accept=700, oracles=[('converge', lambda h, st, b, prev: ec.oracle_c02(h, st, b, *prev))], faults=0.15, feat=dict(dyndep=0.25))
+    # the history-level model (coq/Engine/HistDefs.v, theorems of Properties_C02hist.v) run against the real engine
+    histmodel.hook(ctx, 'C02')
